@@ -114,23 +114,57 @@ package resourcereservation
 // protocol counters: how often the binder asked for a node-wide sync / for the removal of a pod's GPU-group labels
 //@ ghost nodeSyncs() int
 //@ ghost labelRemovals() int
+// lastNodeSyncSawRemovals(): the value of labelRemovals() at the time of the most recent node-wide sync, i.e. which
+// label removals that sync could already see in the store. C17: "... bind failures ... and the sync that follows
+// them": a sync only cleans up after a label removal that happened BEFORE it.
+//@ ghost lastNodeSyncSawRemovals() int
 //@ func Interface.SyncForNode
 //@   props C11 C17
-//@   modifies family(gone(nil)), nodeSyncs()
+//@   modifies family(gone(nil)), nodeSyncs(), lastNodeSyncSawRemovals()
 //@   ensures nodeSyncs() == old(nodeSyncs()) + 1
+//@   ensures lastNodeSyncSawRemovals() == labelRemovals()
 //@ end
+
+// ---- API-store model of the consumer pod's labels -----------------------------------------------
+// podRev(p): revision of p's API object (a successful label patch produces a new one, a failing patch none);
+// labelAt(p, rev, k): value of label k of that revision ("" = absent; GPU-group labels are never empty strings).
+// Only the assumed contracts of Patch / RemovePodGpuGroupsConnection write podRev.
+//@ ghost podRev(p *v1.Pod) int
+//@ declare labelAt(p ref, rev int, k string) string
+//@ define labelStored(p *v1.Pod, k string) string = labelAt(p, podRev(p), k)
+// value of the runai-gpu-group label of pod p in the API store
+//@ define groupLabelStored(p *v1.Pod) string = labelStored(p, "runai-gpu-group")
+// label key of a multi-fraction pod for group g (resources.GetMultiFractionGpuGroupLabel)
+//@ define multiKey(g string) string = "runai-gpu-group/" + g
+// single-fraction pod: no gpu-fraction-num-devices annotation, or one that parses to <= 1 (defines of package resources)
+//@ define singleFraction(pod *v1.Pod) bool = !resources.hasCount(pod) || (resources.piOk(resources.countStr(pod)) && resources.piVal(resources.countStr(pod)) <= 1)
+//@ define multiFraction(pod *v1.Pod) bool = resources.hasCount(pod) && resources.piOk(resources.countStr(pod)) && resources.piVal(resources.countStr(pod)) > 1
+
+// C11: "... the attempt's side effects removed or removable by the next sync": Rollback removes the GPU-group labels
+// it finds on the IN-MEMORY pod, so a successful reservation must leave the label it stored on the caller's pod too.
 //@ func Interface.ReserveGpuDevice
 //@   props C11 C17
 //@   requires pod != nil
-//@   modifies family(gone(nil)), fields(pod)
-//@   ensures pod.Name == old(pod.Name) && pod.Namespace == old(pod.Namespace) && pod.UID == old(pod.UID)
+//@   modifies family(gone(nil)), pod.Labels, pod.Labels[*], pod.ResourceVersion, podRev(pod)
+//@   ensures result1 == nil && old(singleFraction(pod)) ==> ("runai-gpu-group" in pod.Labels) && pod.Labels["runai-gpu-group"] == gpuGroup
+//@   ensures result1 == nil && old(multiFraction(pod)) ==> (multiKey(gpuGroup) in pod.Labels) && pod.Labels[multiKey(gpuGroup)] == gpuGroup
+//@   ensures result1 == nil ==> forall k string :: labelStored(pod, k) == pod.Labels[k]
+//@   ensures forall k string :: old(k in pod.Labels) ==> (k in pod.Labels)
+//@   ensures pod.Labels == old(pod.Labels) || fresh(pod.Labels)
 //@ end
+// The remove-patch is built from the labels of the in-memory pod: on success exactly its runai-gpu-group and
+// runai-gpu-group/<g> labels leave the store (a JSON-patch "remove" of an absent path fails the whole patch); a
+// failing patch changes nothing. The response is decoded into the pod.
 //@ func Interface.RemovePodGpuGroupsConnection
 //@   props C11 C17
 //@   requires pod != nil
-//@   modifies fields(pod), labelRemovals()
+//@   modifies fields(pod), labelRemovals(), podRev(pod)
 //@   ensures labelRemovals() == old(labelRemovals()) + 1
 //@   ensures pod.Name == old(pod.Name) && pod.Namespace == old(pod.Namespace) && pod.UID == old(pod.UID)
+//@   ensures result == nil && old("runai-gpu-group" in pod.Labels) ==> labelStored(pod, "runai-gpu-group") == ""
+//@   ensures result == nil ==> forall g string :: old(multiKey(g) in pod.Labels) ==> labelStored(pod, multiKey(g)) == ""
+//@   ensures result == nil ==> forall k string :: !old(k in pod.Labels) ==> labelStored(pod, k) == old(labelStored(pod, k))
+//@   ensures result != nil ==> podRev(pod) == old(podRev(pod))
 //@ end
 
 // ---- findGPUIndexByGroup ------------------------------------------------------------------------
@@ -191,10 +225,8 @@ package resourcereservation
 //@ end
 
 // ---- ReserveGpuDevice ---------------------------------------------------------------------------
-// reservationCreates(): number of reservation pods created; groupLabelStored(p): value of the runai-gpu-group label
-// of pod p in the API store.
+// reservationCreates(): number of reservation pods created
 //@ ghost reservationCreates() int
-//@ ghost groupLabelStored(p *v1.Pod) string
 
 // create + wait-for-index: waitForGPUReservationPodAllocation is a select over a watch channel and timers
 // (channels/select are outside the subset); createGPUReservationPod uses rand.String and resource.Quantity.
@@ -218,34 +250,50 @@ package resourcereservation
 //@   ensures [found-index-is-reused] result1 == nil && reservationCreates() == old(reservationCreates()) ==> result0 != ""
 //@ end
 
-// Patch(pod, MergeFrom(original)) on the pod: success stores the in-memory runai-gpu-group label.
+// Patch(pod, MergeFrom(original)) on the pod: success stores the in-memory labels (new revision), failure stores nothing.
 //@ func sigs.k8s.io/controller-runtime/pkg/client.WithWatch.Patch
-//@   props C17
+//@   props C17 C11
 //@   requires obj != nil
-//@   modifies podOf(obj).ResourceVersion, groupLabelStored(podOf(obj))
-//@   ensures result == nil && typeis(obj, "*v1.Pod") ==> groupLabelStored(podOf(obj)) == podOf(obj).Labels["runai-gpu-group"]
-//@   ensures !(result == nil && typeis(obj, "*v1.Pod")) ==> groupLabelStored(podOf(obj)) == old(groupLabelStored(podOf(obj)))
+//@   modifies podOf(obj).ResourceVersion, podRev(podOf(obj))
+//@   ensures result == nil && typeis(obj, "*v1.Pod") ==> (forall k string :: labelStored(podOf(obj), k) == podOf(obj).Labels[k])
+//@   ensures !(result == nil && typeis(obj, "*v1.Pod")) ==> podRev(podOf(obj)) == old(podRev(podOf(obj)))
 //@ end
 
 // C17: "success => the pod is labelled with g"
-// single-fraction pod: no gpu-fraction-num-devices annotation, or one that parses to <= 1 (defines of package resources)
-//@ define singleFraction(pod *v1.Pod) bool = !resources.hasCount(pod) || (resources.piOk(resources.countStr(pod)) && resources.piVal(resources.countStr(pod)) <= 1)
+// C11: "... or unbound with the request reported Failed and the attempt's side effects removed or removable by the
+// next sync": Binder.Rollback -> RemovePodGpuGroupsConnection removes the group labels it finds on the caller's
+// IN-MEMORY pod. So whatever this function stores in the API must also be on the pod object the caller passed in:
+// a label that is stored but not in memory can never be rolled back.
 //@ func (*service).updatePodGPUGroup
-//@   props C17
+//@   props C17 C11
 //@   requires rsc != nil && rsc.kubeClient != nil && pod != nil
-//@   modifies pod.Labels, pod.Labels[*], pod.ResourceVersion, groupLabelStored(pod)
+//@   modifies pod.Labels, pod.Labels[*], pod.ResourceVersion, podRev(pod)
 //@   ensures [single-fraction-pod-labelled-with-the-group] result == nil && old(singleFraction(pod)) ==> groupLabelStored(pod) == gpuGroup
+//@   ensures [multi-fraction-pod-labelled-with-the-group] result == nil && old(multiFraction(pod)) ==> labelStored(pod, multiKey(gpuGroup)) == gpuGroup
 //@   ensures [failure-leaves-the-stored-label] result != nil ==> groupLabelStored(pod) == old(groupLabelStored(pod))
+//@   ensures [failure-stores-nothing] result != nil ==> podRev(pod) == old(podRev(pod))
+//@   ensures [in-memory-single-fraction-pod-carries-the-group-label] result == nil && old(singleFraction(pod)) ==> ("runai-gpu-group" in pod.Labels) && pod.Labels["runai-gpu-group"] == gpuGroup
+//@   ensures [in-memory-multi-fraction-pod-carries-the-group-label] result == nil && old(multiFraction(pod)) ==> (multiKey(gpuGroup) in pod.Labels) && pod.Labels[multiKey(gpuGroup)] == gpuGroup
+//@   ensures [stored-labels-are-the-in-memory-labels] result == nil ==> forall k string :: labelStored(pod, k) == pod.Labels[k]
+//@   ensures [in-memory-labels-only-grow] forall k string :: old(k in pod.Labels) ==> (k in pod.Labels)
+//@   ensures [labels-map-kept-or-new] pod.Labels == old(pod.Labels) || fresh(pod.Labels)
 //@ end
 
 // C17: "every pod bound into the group is given that reservation pod's device index"; "label patch fails =>
 // syncForGpuGroupWithLock runs before the lock is released" (call-site obligation `requires gm.held` of the callee).
+// C11 (see updatePodGPUGroup): success leaves the stored label on the caller's in-memory pod, where Rollback looks.
 //@ func (*service).ReserveGpuDevice
-//@   props C17
+//@   props C17 C11
 //@   requires rsc != nil && rsc.kubeClient != nil && rsc.gpuGroupMutex != nil && pod != nil
-//@   modifies family(gone(nil)), family(gm.held("")), rsc.gpuGroupMutex.mutexMap[*], rsc.gpuGroupMutex.mutexRefsMap[*], lastListCount(), reservationCreates(), pod.Labels, pod.Labels[*], pod.ResourceVersion, groupLabelStored(pod)
+//@   modifies family(gone(nil)), family(gm.held("")), rsc.gpuGroupMutex.mutexMap[*], rsc.gpuGroupMutex.mutexRefsMap[*], lastListCount(), reservationCreates(), pod.Labels, pod.Labels[*], pod.ResourceVersion, podRev(pod)
 //@   ensures [lock-released] !gm.held(gpuGroup)
 //@   ensures [failure-returns-the-unknown-index] result1 != nil ==> result0 == "-1"
 //@   ensures [success-labels-the-pod] result1 == nil && old(singleFraction(pod)) ==> groupLabelStored(pod) == gpuGroup
+//@   ensures [success-labels-the-multi-fraction-pod] result1 == nil && old(multiFraction(pod)) ==> labelStored(pod, multiKey(gpuGroup)) == gpuGroup
+//@   ensures [in-memory-single-fraction-pod-carries-the-group-label] result1 == nil && old(singleFraction(pod)) ==> ("runai-gpu-group" in pod.Labels) && pod.Labels["runai-gpu-group"] == gpuGroup
+//@   ensures [in-memory-multi-fraction-pod-carries-the-group-label] result1 == nil && old(multiFraction(pod)) ==> (multiKey(gpuGroup) in pod.Labels) && pod.Labels[multiKey(gpuGroup)] == gpuGroup
+//@   ensures [stored-labels-are-the-in-memory-labels] result1 == nil ==> forall k string :: labelStored(pod, k) == pod.Labels[k]
+//@   ensures [in-memory-labels-only-grow] forall k string :: old(k in pod.Labels) ==> (k in pod.Labels)
+//@   ensures [labels-map-kept-or-new] pod.Labels == old(pod.Labels) || fresh(pod.Labels)
 //@   ensures [at-most-one-create] reservationCreates() <= old(reservationCreates()) + 1
 //@ end
